@@ -9,10 +9,14 @@ PoolVal3 == (100 :> 3 @@ 101 :> 3 @@ 102 :> 2)
 Pool5 == {100, 101, 102, 103, 104}
 PoolVal5 == (100 :> 3 @@ 101 :> 3 @@ 102 :> 2 @@ 103 :> 1 @@ 104 :> 4)
 
-\* long trunk with a spend every 4th block (TrunkTx): coinbase k-4 -> 200+k
-TrunkPoolIds == {200 + 4 * j : j \in 2..21}
-PoolC == {100, 101, 102} \cup TrunkPoolIds
-PoolValC == [c \in PoolC |-> IF c = 100 \/ c = 101 THEN 3 ELSE IF c = 102 THEN 2 ELSE IF c = 208 THEN 3 ELSE 4]
+\* long trunk in which every block k >= 8 spends coinbase k-4 and pool output 200+k-4 into 200+k (TrunkTx):
+\* value(200+k) = 3 + 4 * ((k - 8) \div 4); further pool outputs so that the last trunk outputs and the
+\* coinbases (4, or 5 with a fee) can be spent by balanced 1-in-1-out transactions
+TrunkPoolIds == {200 + k : k \in 8..85}
+TrunkPoolVal(c) == 3 + 4 * ((c - 208) \div 4)
+PoolC == {100, 101, 102, 103, 104} \cup TrunkPoolIds \cup {382, 383, 384, 385}
+PoolValC == [c \in PoolC |-> IF c \in {100, 101} THEN 3 ELSE IF c = 102 THEN 2 ELSE IF c \in {103, 104} THEN 4
+                              ELSE IF c >= 300 THEN TrunkPoolVal(c - 100) - 1 ELSE TrunkPoolVal(c)]
 
 CONSTANT SimProfile   \* "mixed" | "flags" | "locks" | "plain" | "deep" | "respend" | "nrd": bias of the simulation-only minting
 
@@ -35,6 +39,9 @@ ValidT(b) == IF b <= Trunk THEN TRUE
                   /\ LateOK(b)
 ValidIdsT == (0..Trunk) \cup {b \in Ids : b > Trunk /\ ValidT(b)}
 
+\* commitments unspent at block b by the definitional oracle (what a read-only rewind to b must expose)
+UnspentAt(b) == LET u == Replay(b) IN {u.outs[i].c : i \in u.unspent}
+
 \* Simulation-only minting: one random well-formed block per step (RandomElement), biased towards
 \* empty and unflagged blocks so that a good share of every tree is valid.
 BalancedTxs(id, h) == {t \in TxChoices(h) \ {NoTx} :
@@ -47,7 +54,7 @@ MintSim ==
   \E rp \in {RandomElement(1..10)} :
   \E lv \in {CHOOSE b \in vb : \A x \in vb : x <= b} :
   \E p \in {IF SimProfile = "compact"
-             THEN (IF rp <= 3 THEN RandomElement({b \in Ids : Height(b) >= Trunk - 8})            \* forks stay above the horizon
+             THEN (IF rp <= 3 THEN RandomElement({b \in Ids : Height(b) >= Trunk - 20})           \* forks down to the horizon of a compaction at the trunk head
                    ELSE IF rp <= 5 /\ lv > Trunk THEN Parent(lv) ELSE lv)
              ELSE IF SimProfile = "deep" /\ rp <= 6 THEN RandomElement({b \in Ids : Height(b) <= 4})   \* fork points far below the head
              ELSE IF SimProfile \in {"respend", "nrd"} /\ rp <= 4 /\ lv # 0 THEN Parent(lv)        \* sibling of the latest valid block
@@ -104,7 +111,7 @@ DeliverSim ==
      \E b \in {IF r <= 4 /\ ready2 # {} THEN RandomElement(ready2)
                 ELSE IF r <= 6 /\ ready # {} THEN RandomElement(ready)
                 ELSE IF r <= 8 /\ fresh # {} THEN RandomElement(fresh)
-                ELSE RandomElement(Ids \ {0})} :
+                ELSE RandomElement({x \in Ids \ {0} : SimProfile # "compact" \/ x + 30 > Trunk})} :
      \E hb \in {RandomElement(1..8)} :
         IF hb <= 2 /\ ~HeadersFirst THEN DeliverHeader(b)
         ELSE IF hb = 3 /\ ~HeadersFirst /\ Height(b) >= 2
@@ -113,17 +120,35 @@ DeliverSim ==
 SimNext == \/ MintSim
            \/ (AllMinted /\ DeliverSim)
            \/ (\E r \in {RandomElement(1..6)} : r = 1 /\ Reopen)
-           \/ (SimProfile = "compact" /\ \E r \in {RandomElement(1..5)} : r = 1 /\ CompactCall)
-MCSimSpec == Init /\ TrunkStored /\ hist = <<>> /\ [][SimNext /\ hist' = IF last'.k \in {"ProcessHeader", "ProcessBlock", "Reopen", "SyncHeaders", "Compact"}
+           \/ (SimProfile = "compact" /\ \E r \in {RandomElement(1..3)} : r = 1 /\ CompactCall)
+           \/ (SimProfile = "compact" /\ AllMinted /\ ndel = 0 /\                               \* headers run ahead of the bodies first
+                  \E cand \in {{x \in ValidIdsT : Height(x) - Trunk \in {2, 3} /\ IsAnc(Trunk, x)}} :
+                    cand # {} /\ \E b \in {CHOOSE x \in cand : \A y \in cand : Height(y) <= Height(x)} :
+                      DeliverHeaders(b, Height(b) - Trunk))
+           \/ (SimProfile = "compact" /\ last.k = "Compact" /\                                   \* right after a compaction: rewind to the horizon itself
+                  \E b \in {CHOOSE x \in Ids : IsAnc(x, n.head) /\ Height(x) = n.hz} : Probe(b))
+           \/ (SimProfile \in {"compact", "reset"} /\ \E r \in {RandomElement(1..6)} : r = 1 /\
+                  \E b \in {RandomElement({x \in Ids : IsAnc(x, n.head) /\ Height(x) >= n.hz /\ Height(x) + 25 >= Height(n.head)})} : Probe(b))
+           \/ (SimProfile \in {"compact", "reset"} /\ \E r \in {RandomElement(1..(IF SimProfile = "reset" THEN 3 ELSE 8))} : r = 1 /\
+                  \E cand \in {{x \in n.hdrs : Height(LCA(n.head, x)) >= n.hz /\ Height(x) + 25 >= Height(n.head)}} :
+                  \E b \in {RandomElement(cand)} : ResetHead(b))
+MCSimSpec == Init /\ TrunkStored /\ hist = <<>> /\ [][SimNext /\ hist' = IF last'.k \in {"ProcessHeader", "ProcessBlock", "Reopen", "SyncHeaders", "Compact", "ResetHead", "Probe"}
                      THEN Append(hist, [k |-> last'.k, b |-> last'.b, res |-> last'.res, proj |-> Proj(n'),
-                                        cnt |-> IF last'.k = "SyncHeaders" THEN last'.cnt ELSE 0])
+                                        cnt |-> IF last'.k = "SyncHeaders" THEN last'.cnt ELSE 0,
+                                        uat |-> IF last'.k = "Probe" THEN UnspentAt(last'.b) ELSE {}])
                      ELSE hist]_mcvars
 
 MCInit == Init /\ hist = <<>>
+\* with the operator action (only for configurations that check the C02 invariants)
+NextR == Next \/ (\E b \in Ids : ResetHead(b))
+MCNextR == /\ NextR
+           /\ hist' = hist
+MCSpecR == MCInit /\ [][MCNextR]_mcvars
 MCNext == /\ Next
-          /\ hist' = IF last'.k \in {"ProcessHeader", "ProcessBlock", "Reopen", "SyncHeaders", "Compact"}
+          /\ hist' = IF last'.k \in {"ProcessHeader", "ProcessBlock", "Reopen", "SyncHeaders", "Compact", "ResetHead", "Probe"}
                      THEN Append(hist, [k |-> last'.k, b |-> last'.b, res |-> last'.res, proj |-> Proj(n'),
-                                        cnt |-> IF last'.k = "SyncHeaders" THEN last'.cnt ELSE 0])
+                                        cnt |-> IF last'.k = "SyncHeaders" THEN last'.cnt ELSE 0,
+                                        uat |-> IF last'.k = "Probe" THEN UnspentAt(last'.b) ELSE {}])
                      ELSE hist
 MCSpec == MCInit /\ [][MCNext]_mcvars
 
